@@ -78,6 +78,10 @@ func c08alphabets() {
 	auth1("AUTH <previous password>", resp.BulkS(c08old), false)
 	full = append(full, c08sym{Name: "AUTH (no argument)", Req: resp.Cmd("AUTH"), IsAuth: true, MustFail: true})
 	full = append(full, c08sym{Name: "AUTH a b c", Req: resp.Cmd("AUTH", "default", c08pass, "x"), IsAuth: true, DontCare: true})
+	// surplus arguments never make a wrong password right (whether the exact password with a surplus argument is
+	// accepted is the framework's own business: the reply decides)
+	full = append(full, c08sym{Name: "AUTH a wrong c", Req: resp.Cmd("AUTH", "default", "wrong", c08pass), IsAuth: true, MustFail: true})
+	full = append(full, c08sym{Name: "AUTH '' wrong c", Req: resp.Cmd("AUTH", "", c08pass+"x", c08pass), IsAuth: true, MustFail: true})
 	two := func(u string, p resp.Value, kind string) {
 		s := c08sym{Name: fmt.Sprintf("AUTH %q %s", u, p), Req: resp.Array(resp.BulkS("AUTH"), resp.BulkS(u), p), IsAuth: true}
 		switch kind {
